@@ -393,15 +393,18 @@ def _check_for_modified_notes(
         if note.modify_date != today and note_has_changed:
             note.modify_date = today
             modify_short_date = zdt.to_short_date_spec(dt.date.today())
-            # If the modify date is the same as the create date, then no modify
-            # date spec should exist yet...
+            # The body starts with a modify date spec iff its first word is
+            # one (the same test _add_or_update_modify_date applies to the
+            # line in the file, so that file and index keep agreeing): replace
+            # it if it is there, insert the new one otherwise.
             assert old_note is not None
-            if old_note.modify_date == note.create_date:
-                old_body = f"{note.body.lstrip()}"
-            # Otherwise, we need to remove the old modify date spec before
-            # adding the new one.
+            body_words = note.body.lstrip().split(" ")
+            if len(body_words[0]) == 6 and all(
+                ch.isdigit() for ch in body_words[0]
+            ):
+                old_body = " ".join(body_words[1:])
             else:
-                old_body = " ".join(note.body.lstrip().split(" ")[1:])
+                old_body = note.body.lstrip()
             note.body = f"{modify_short_date} {old_body}"
             modified_notes.append(note)
     if modified_notes:
